@@ -109,6 +109,8 @@ impl Default for KeyProviders {
 
 impl KeyProviders {
     pub fn read(&self) -> KeyProvidersReadTransaction {
+        #[cfg(feature = "verif-hooks")]
+        crate::verif_hooks::c06::pause(crate::verif_hooks::c06::R_KP);
         KeyProvidersReadTransaction {
             inner: self.inner.read(),
         }
@@ -286,6 +288,8 @@ impl KeyProvidersWriteTransaction<'_> {
     }
 
     pub(crate) fn commit(self) -> Result<(), OperationError> {
+        #[cfg(feature = "verif-hooks")]
+        crate::verif_hooks::c06::pause(crate::verif_hooks::c06::W_KP);
         self.inner.commit();
 
         Ok(())
